@@ -177,6 +177,7 @@ func RedisGetStr(key string) (string, bool)           { panic("verifrt: redis mo
 func RedisGetInt(key string) (int64, bool)            { panic("verifrt: redis model is engine-only") }
 func RedisPTTL(key string) int64                      { panic("verifrt: redis model is engine-only") }
 func RedisFail(on bool)                               {}
+func RedisFailAt(n int)                               {}
 func RedisCalls() int                                 { return 0 }
 func RedisScriptRuns() int                            { return 0 }
 func RedisWrites() int                                { return 0 }
